@@ -51,6 +51,60 @@ def _run_task(args):
   return out
 
 
+def _worker(task, conn):
+  try:
+    conn.send(_run_task(task))
+  except BaseException as e:
+    try: conn.send({"crash": repr(e)})
+    except Exception: pass
+  finally:
+    conn.close()
+
+
+def run_tasks(tasks, procs):
+  """One forked process per task, at most `procs` at a time, each with a HARD wall limit (task_s + 25%): a worker stuck
+  inside a native solver / normalisation call cannot be interrupted from Python, so it is killed and the task is
+  reported inconclusive."""
+  import multiprocessing.connection as mpc
+  ctxm = mp.get_context("fork")
+  pending = list(tasks)[::-1]
+  running = {}
+  results = []
+  def blank(task, why):
+    pid, hname, cfg, caps = task
+    from symrun import core
+    return {"max_q": 0, "q": {"sat": 0, "unsat": 0, "unknown": 0}, "solver_s": 0, "paths": 0, "decisions": 0,
+            "obligations": 0, "discharged": 0, "witnesses": 0, "witness_skipped": 0, "samples": [], "violations": [],
+            "inconclusive": [{"clause": "engine", "why": why}], "errors": [], "excluded_paths": 0, "maybe_infeasible": 0,
+            "harness": hname, "cfg": core._jsonable(cfg), "wall_s": 0, "optional": bool(caps.get("optional"))}
+  while pending or running:
+    while pending and len(running) < max(1, procs):
+      task = pending.pop()
+      r, w = ctxm.Pipe(duplex=False)
+      p = ctxm.Process(target=_worker, args=(task, w), daemon=True)
+      p.start(); w.close()
+      limit = task[3].get("task_s", 300) * 1.25 + 30
+      running[r] = (p, task, time.time() + limit, limit)
+    ready = mpc.wait(list(running), timeout=0.5)
+    for r in ready:
+      p, task, dl, limit = running.pop(r)
+      try:
+        res = r.recv()
+      except (EOFError, OSError):
+        res = None
+      r.close(); p.join(5)
+      if not isinstance(res, dict) or "crash" in res:
+        res = blank(task, "worker died: %r" % (res,))
+      results.append(res)
+    now = time.time()
+    for r in list(running):
+      p, task, dl, limit = running[r]
+      if now > dl:
+        p.kill(); p.join(5); r.close(); running.pop(r)
+        results.append(blank(task, "task killed after %.0f s (stuck inside a native solver/normalisation call)" % limit))
+  return results
+
+
 def load_known():
   p = os.path.join(VERIF, "known_findings.json")
   if not os.path.exists(p): return []
@@ -130,14 +184,12 @@ def main(argv=None):
     if a.only and a.only not in hname and a.only not in json.dumps(core._jsonable(cfg)):
       continue
     tasks.append((a.pid, hname, cfg, caps))
-  results = []
-  if a.procs <= 1 or len(tasks) <= 1:
-    for t in tasks: results.append(_run_task(t))
-  else:
-    ctxm = mp.get_context("fork")
-    with ctxm.Pool(min(a.procs, len(tasks)), maxtasksperchild=8) as pool:
-      for r in pool.imap_unordered(_run_task, tasks, chunksize=1):
-        results.append(r)
+  try:
+    import audiolazy            # imported once here: the per-task processes are forked and inherit it
+    from symrun import stubs, containers, loader
+  except Exception:
+    pass
+  results = run_tasks(tasks, a.procs)
   results.sort(key=lambda r: (r["harness"], json.dumps(r["cfg"], sort_keys=True)))
   extra = None
   if hasattr(mod, "extra") and not a.only:
